@@ -66,7 +66,7 @@ func c16MustFail(l CfgLit, r vlib.Req) (bool, string) {
 }
 
 func c16Judge(k c16Case) *vlib.Failure {
-	bm, err := buildViaH(k.Route, k.Cfg, false)
+	bm, err := buildViaH(k.Route, k.Cfg, false, k.Req)
 	if err != nil {
 		return vlib.Failf("configuration of the C16 alphabet rejected (route %q): %v", routeNames[k.Route], err)
 	}
